@@ -35,10 +35,22 @@ def traces_of(lines, start_ops=("reset",)):
     return [(a, b) for a, b in zip(starts, starts[1:] + [len(lines)])]
 
 
+def defined_samples(tl):
+    sent = {}
+    for o in tl:
+        if o["op"] == "send" and o.get("res") == "ok":
+            sent[o["id"]] = o["t"]
+        elif o["op"] == "recv" and o.get("res") == "ok" and o.get("id") in sent:
+            if not (0 < o["t"] - sent[o["id"]] <= 20000000):
+                return False
+    return True
+
+
 class Corruption:
-    def __init__(self, name, expect, find, apply, trace_ok=None):
+    def __init__(self, name, expect, find, apply, trace_ok=None, prev_ok=None):
         self.name, self.expect, self.find, self.apply = name, set(expect), find, apply
         self.trace_ok = trace_ok      # optional predicate on the lines of the whole trace
+        self.prev_ok = prev_ok        # optional predicate on (previous line, chosen line)
 
 
 def run_family(title, module, cfg, tracefile, corruptions, wd, start_ops=("reset",), single_line=False):
@@ -65,7 +77,7 @@ def run_family(title, module, cfg, tracefile, corruptions, wd, start_ops=("reset
             if c.trace_ok and not c.trace_ok(lines[a:b]):
                 continue
             for i in range(a, b):
-                if c.find(lines[i], lines[a]):
+                if c.find(lines[i], lines[a]) and (not c.prev_ok or (i > a and c.prev_ok(lines[i - 1], lines[i]))):
                     hit = (ti, i)
                     break
             if hit:
@@ -235,7 +247,13 @@ def client_corruptions():
                    and len(o["snap"]["tx"]) >= 1, conclude_other_request),
         Corruption("time-out reported one millisecond before the deadline", {"C06"},
                    lambda o, r: o["op"] == "timeout" and not r["cfg"]["reliable"] and r["cfg"]["mech"] == "none"
-                   and any(e["k"] == "failed" for e in o["ev"]) and not has_ev(o, "out"), fail_early),
+                   and any(e["k"] == "failed" for e in o["ev"]) and not has_ev(o, "out"), fail_early,
+                   # the corruption must be one: the timer call moved by 1 ms lies before the deadline of a
+                   # request reported as failed (the walks also make timer calls that are minutes late) and
+                   # not before the previous call
+                   prev_ok=lambda p, o: p["t"] <= o["t"] - 1000 and any(
+                       o["t"] - 1000 < h["at"] + h["dur"] for h in p["snap"]["heap"]
+                       if h["x"] and any(e["k"] == "failed" and e["id"] == h["id"] for e in o["ev"]))),
         Corruption("timer call at the deadline reports nothing and keeps the request", {"C06", "C11"},
                    lambda o, r: o["op"] == "timeout" and r["cfg"]["mech"] == "none"
                    and sum(1 for e in o["ev"] if e["k"] == "failed") == 1, deadline_ignored),
@@ -265,7 +283,9 @@ def client_corruptions():
                    and o["snap"]["est"]["srtt"] > 0 and o["snap"]["est"]["x"], rto_off,
                    # the reference estimate must be defined: no receive instant before its request's send
                    # instant (such a sample is undefined for C15) anywhere in the trace
-                   trace_ok=lambda tl: all(tl[j]["t"] >= tl[j - 1]["t"] for j in range(1, len(tl)))),
+                   # ... and no response time of zero or above 20 s (the monitor's reference is then undefined
+                   # until the next reset of the estimator, ClientMon.tla `unk`)
+                   trace_ok=lambda tl: all(tl[j]["t"] >= tl[j - 1]["t"] for j in range(1, len(tl))) and defined_samples(tl)),
         Corruption("FINGERPRINT missing from a request of a fingerprint client", {"C10"},
                    lambda o, r: o["op"] == "send" and o["res"] == "ok" and r["cfg"]["fp"], fp_missing),
         Corruption("retransmission one millisecond before its slot", {"C06", "C11"},
